@@ -43,7 +43,8 @@ LEVEL_TEXT = ('Deductive proof of (1) the frame rule "only fresh tokens are stam
     'every shipped handler under contract and for generate_replacements: every token of the result is Ok and its position '
     'lies in the ghost interval spanned by the call position and the positions of the argument tokens; (3) by evaluation, '
     'that every macro/environment declaration satisfies the argument-code requirement (CodeReq) of its handler.')
-LEVEL_NOTE = 'The composition "argument tokens lie inside the construct" is assumed, not proved. ' + cm.TRUSTED_CORE[0]
+LEVEL_NOTE = ('The composition "argument tokens lie inside the construct" is assumed, not proved. ' + cm.TRUSTED_CORE[0]
+    + ' A bounded stand-in in the quick tier (nine generating constructs, each used three times: every generated character maps into its own use) covers repeated use; reported as bounded, not counted as proved.')
 TECHNIQUE = 'contract-based deductive verification: generic handler contract with ghost interval, freshness obligations at every token field store, z3'
 
 
